@@ -16,6 +16,7 @@ import (
 	"strconv"
 	"syscall"
 	"testing"
+	"strings"
 	"time"
 	"unsafe"
 
@@ -51,6 +52,9 @@ type c16Case struct {
 	// MirrorWorkers > 0: the queued datagrams go through the real dispatcher with that many mirror workers sharing
 	// its queue (the collector's default is 5) instead of through a single mirror function
 	MirrorWorkers int `json:"mirror_workers,omitempty"`
+	// Quiet: payload index -> milliseconds without traffic before that datagram; the dispatcher and its mirror
+	// workers run while the phase does (the collector's wiring), so a mirror socket sits unused for that long
+	Quiet map[int]int `json:"quiet,omitempty"`
 	// SrcPorts: UDP source port of the exporter per datagram (absent: 3000+i). Any port is an exporter's good right:
 	// ephemeral ones, privileged ones, the collector's own listening ports, the ports its mirror functions send from,
 	// the mirror target's port
@@ -223,10 +227,38 @@ func genC16(t *rapid.T, envs map[string]*wire.GenEnv) c16Case {
 				rapid.SampledFrom([]int{1, 53, 1023, 1024, 4729, 4739, 6343, 9996, 8081, 32768, 55117, 55118, 55119, 60999, 65535, c.Port})).Draw(t, "srcport"))
 		}
 	}
+	if c.Flood == 0 && len(c.Payloads) >= 2 && rapid.IntRange(0, 9).Draw(t, "quiet") == 0 {
+		// quiet spells between datagrams, with the dispatcher and its workers running all the while
+		if c.MirrorWorkers == 0 {
+			c.MirrorWorkers = rapid.SampledFrom([]int{1, 2, 5}).Draw(t, "quietworkers")
+		}
+		c.Quiet = map[int]int{}
+		total := 0
+		for k, ns := 0, rapid.IntRange(1, 2).Draw(t, "nquiets"); k < ns; k++ {
+			ms := rapid.SampledFrom([]int{700, 1200, 2200, 2600, 3100}).Draw(t, "quietms")
+			if total+ms > 4500 {
+				continue
+			}
+			total += ms
+			c.Quiet[rapid.IntRange(1, len(c.Payloads)-1).Draw(t, "quietat")] += ms
+		}
+	}
 	return c
 }
 
+// runC16 runs the case; a run whose capture socket lost packets (it sees all UDP traffic of the machine) tells nothing
+// and is repeated, twice at most.
 func runC16(c *c16Case) (v verdict, sig string, err error) {
+	for try := 0; ; try++ {
+		v, sig, err = runC16Once(c)
+		if err == nil || try == 2 || !strings.Contains(err.Error(), "harness: the capture socket dropped") {
+			return
+		}
+		time.Sleep(time.Duration(200*(try+1)) * time.Millisecond)
+	}
+}
+
+func runC16Once(c *c16Case) (v verdict, sig string, err error) {
 	if len(c.Exporter) != 4 && len(c.Exporter) != 16 || len(c.Target) != 4 || c.UDPSize < 1 {
 		return v, "", fmt.Errorf("bad case")
 	}
@@ -304,12 +336,17 @@ func runC16(c *c16Case) (v verdict, sig string, err error) {
 			sp = c.SrcPorts[i]
 			v.label(true, "drawn-exporter-source-ports")
 		}
-		phase = append(phase, drvDatagram{Addr: hex.EncodeToString(c.Exporter), Port: sp, Data: hex.EncodeToString(p)})
+		d := drvDatagram{Addr: hex.EncodeToString(c.Exporter), Port: sp, Data: hex.EncodeToString(p)}
+		if ms := c.Quiet[i]; ms > 0 && ms <= 10000 && c.MirrorWorkers > 0 {
+			d.PauseMS = ms
+			v.label(true, "quiet-spell-between-mirrored-datagrams")
+		}
+		phase = append(phase, d)
 	}
 	target := net.IP(c.Target).String()
 	v.label(c.OtherUDPSize > 0 && c.OtherUDPSize < c.UDPSize, "other-protocols-smaller-udp-size")
 	on := drvRequest{Op: "pipeline", Proto: c.Proto, Workers: c.Workers, UDPSize: c.UDPSize, OtherUDPSize: c.OtherUDPSize, ResetCache: true,
-		Mirror: true, MirrorDst: target, MirrorPort: c.Port, MirrorWorkers: c.MirrorWorkers, Phases: [][]drvDatagram{phase}}
+		Mirror: true, MirrorDst: target, MirrorPort: c.Port, MirrorWorkers: c.MirrorWorkers, MirrorLive: len(c.Quiet) > 0 && c.MirrorWorkers > 0, Phases: [][]drvDatagram{phase}}
 	v.label(c.MirrorWorkers > 0, "dispatcher-with-several-mirror-workers")
 	// a second phase in the same request draws its receive buffers from the pool the first phase's mirror
 	// copies were returned to: 24 self-contained messages, longer than most of the first phase's payloads
@@ -344,6 +381,12 @@ func runC16(c *c16Case) (v verdict, sig string, err error) {
 	off := on
 	off.Mirror = false
 
+	if on.MirrorLive {
+		// a dispatcher that reads the mirror queue while the phases run goes on reading it for the rest of the process:
+		// such a request gets a driver process of its own
+		drivers.drop(false)
+		defer drivers.drop(false)
+	}
 	d, e := drivers.get(false, 150)
 	if e != nil {
 		return v, "", e
@@ -373,6 +416,10 @@ func runC16(c *c16Case) (v verdict, sig string, err error) {
 		mirrored += respOn.Phases[i].Mirrored
 		pubOn = append(pubOn, respOn.Phases[i].Published...)
 		pubOff = append(pubOff, respOff.Phases[i].Published...)
+	}
+	if on.MirrorLive {
+		// the live dispatcher takes the copies as they come; the driver does not count them
+		mirrored = len(payloads)
 	}
 	if c.Flood == 0 && mirrored != len(payloads) {
 		return v, "not-queued", fmt.Errorf("%d of %d datagrams were queued for mirroring", mirrored, len(payloads))
